@@ -461,6 +461,47 @@ def public_path(run):
         run.traces_validated += 1
 
 
+def reordered(run):
+    """The SAME formula texts in the SAME cells, translated one after the other in one process for workbooks whose sheets are ordered
+    differently, hold other values or lack a sheet: a reference denotes cells of the workbook being translated, nothing kept from
+    an earlier one. Values are the coordinates planted in each workbook (scaled per workbook)."""
+    forms = ["=SUM('Data'!$B$2:$C$3)", '=Data!A1', '=SUM(Data!C:C)', "='Other'!B2+Data!B2", '=SUM(Other!A1:B2)', '=B4*2']
+    fcells = [(0, 7, k, f) for k, f in enumerate(forms)]
+
+    def book(order, scale):
+        maps, where = [], {}
+        for i, t in enumerate(order):
+            where[t] = i
+            m = {(c, r): scale * (1000 * 'MDO'.index(t[0]) + 10 * (c + 1) + (r + 1)) for c in range(3) for r in range(4)} if t != 'Main' else {(1, 3): scale * 4}
+            maps.append(m)
+        return maps
+
+    def val(t, c, r, scale):
+        return scale * (1000 * 'MDO'.index(t[0]) + 10 * c + r)
+
+    def expected(order, scale):
+        if 'Data' not in order:
+            return None
+        d = lambda c, r: val('Data', c, r, scale)       # noqa
+        o = lambda c, r: val('Other', c, r, scale)      # noqa
+        return [d(2, 2) + d(3, 2) + d(2, 3) + d(3, 3), d(1, 1), sum(d(3, r) for r in range(1, 5)), o(2, 2) + d(2, 2), o(1, 1) + o(2, 1) + o(1, 2) + o(2, 2), scale * 8]
+
+    for order, scale in ((['Main', 'Data', 'Other'], 1), (['Main', 'Other', 'Data'], 1), (['Main', 'Other', 'Data'], 3), (['Main', 'Other'], 1), (['Main', 'Data', 'Other'], 2)):
+        klass, terr, lerr = build(order, book(order, scale), fcells)
+        exp = expected(order, scale)
+        if exp is None:
+            got = ['rejected' if terr[k] is not None else repr(read_cells(klass, terr, fcells)[k]) for k in (0, 1, 2, 3)]
+            ok = all(g == 'rejected' for g in got)
+            run.judge({'in': {'order': order, 'formulas': forms[:4]}, 'obs': got, 'kind': 'reordered'}, ok,
+                      clause=f'workbook {order} (no sheet Data), translated after workbooks that had one: references to Data must be rejected: {got}', part='reordered')
+        else:
+            res = read_cells(klass, terr, fcells) if klass is not None else [('texc', lerr)] * len(fcells)
+            bad = [(f, e, repo_show(*r, None)) for f, e, r in zip(forms, exp, res) if not (r[0] == 'val' and r[1] == e)]
+            run.judge({'in': {'order': order, 'scale': scale, 'formulas': forms}, 'obs': str(bad), 'kind': 'reordered'}, not bad,
+                      clause=f'workbook {order} (values x{scale}) translated after other workbooks with the same formula texts in the same cells: (formula, expected, got) {bad}', part='reordered')
+        run.traces_validated += 1
+
+
 def check(run):
     run.rule = ('structured references enumerated by TLC (prefix none / word / quoted word / quoted titles x $ markers x columns A..XFD x rows 1..99999 x cell, row, '
                 'column, rectangle and whole-column areas x own sheet), printed, parsed back and denoted by the specification; each read through =ref, '
@@ -469,12 +510,16 @@ def check(run):
     run.assumptions += ['titles containing a quote character and lower-case column letters are out of scope', 'the in-memory workbook has the structure Excel.parse delivers; a sample goes through a real xlsx file']
     gen(run)
     unknown_titles(run)
+    reordered(run)
     trace(run)
     public_path(run)
 
 
 def replay(run, case):
     i = case['in']
+    if case.get('kind') == 'reordered':
+        reordered(run)
+        return
     if 'rec' in i:
         job = _near_job if i['kind'] == 'NEAR' else _wcol_job
         bad = job([i['rec']])[0]
